@@ -10,7 +10,12 @@ its smallest eigenvalue is >= -1e-9 trace, its diagonal equals probability(space
 normalization(space), it equals entry for entry the brute-force partial trace sum_a Psi(s,a) conj Psi(s',a)
 of the purified two-network state computed from the raw parameters, the reported probability equals the
 brute-force auxiliary marginal, and the call forms (matrix, paired vector, single element, diagonal
-shortcut) agree with each other."""
+shortcut) agree with each other.
+
+"For every parameter setting" includes every setting reached on a LIVE object: the same relations are demanded after each
+step of same-object histories evaluate -> mutate the parameters -> evaluate, for every way the library offers or tolerates
+to change parameters (see RULE); the oracle is always computed from the CURRENT parameters (the values written, or, for
+mutations that go through library code, the values the networks' public attributes report afterwards)."""
 import itertools, math
 import numpy as np
 import gen
@@ -22,10 +27,20 @@ RULE = ("architectures nv,nh,na in 1..3 (quick: covering subset incl. nh != nv, 
         "independently (itertools.product); all pairs (sigma, sigma') of basis states; call forms rho(space,space), "
         "rho(space) with default vp, rho(v,vp,expand=False), 1-D single element, rho(v) 1-D, rho(v,expand=False); "
         "matrix form with v != vp (two row orders, rectangular k x m, off-diagonal block); probability(space), "
-        "probability(space, Z); SAME-OBJECT HISTORIES: one DensityMatrix and one set of batch tensor objects, parameters of "
-        "both networks rewritten by .data =, .data.copy_, load_state_dict, vector_to_parameters and everything re-evaluated; "
-        "a batch tensor permuted in place (copy_ / .data.copy_) between two evaluations; batches of 65537..131075 rows "
-        "gathered against the small verified results; three fixed history cases run first; "
+        "probability(space, Z); SAME-OBJECT HISTORIES: one DensityMatrix and one set of batch tensor objects, after every "
+        "mutation everything is re-evaluated against the oracle on the CURRENT parameters; mutation operators: "
+        "torch-level writes of all parameters, of one network, of the biases only or of ONE parameter alone (.data =, "
+        ".data.copy_, copy_ under no_grad, load_state_dict, vector_to_parameters, copy_ into the state_dict() aliases, "
+        "rebinding rbm.<name> = nn.Parameter(...)); library-level: the constructor's own draw, state.reinitialize_parameters(), "
+        "rbm.initialize_parameters() on one / both networks (zero_weights too), replacing a network through the "
+        "rbm_am / rbm_ph setters, state.load(file / buffer) of a donor's save, optimizer steps (SGD / Adam, p.grad set as fit "
+        "does), a 2-epoch fit, module.float().double(), continuing on copy.deepcopy(state) / DensityMatrix.autoload(file) "
+        "(the object left behind must keep its verified values); library-drawn parameters (zero biases) are followed by an "
+        "in-place write of the biases alone; a batch tensor of the caller and the tensor returned by "
+        "generate_hilbert_space() permuted in place (copy_ / .data.copy_) between two evaluations; every returned tensor "
+        "overwritten in place by the caller and each call repeated right after its own result was overwritten; batches of "
+        "65537..131075 rows gathered against the small verified results; six fixed history cases (every operator, every "
+        "parameter of every network changed alone) run first; "
         "a case is (regime, nv, nh, na, parameter draw, history step); "
         "non-trivial := all biases non-zero, amplitude aux bias != 0 and U_mu != 0")
 ASSUMPTIONS = ["torch exp/log/sqrt/atan2/softplus/logsumexp/matmul implement the real functions up to rounding",
@@ -305,10 +320,21 @@ def evaluate(ctx, s, am, ph, case, nontriv, desc, T=None, big=False):
     ctx.count("returned_tensors_overwritten_before_the_repeated_call")
     # last touch: the shared tensor objects are evaluated once more, (i) a repeated call must reproduce the verified values
     # and (ii) whatever a single-entry cache holds when the parameters are rewritten next is keyed on these objects
-    ok, again = ctx.call("repeated evaluation", case, lambda: (
-        s.rho(space, space), s.rho(V, VP, expand=False), s.rho(space, expand=False), s.rho(space), s.probability(space),
-        s.normalization(space), s.pi(space, space), rb_am.gamma(space, space, eta=+1), rb_ph.gamma(space, space, eta=-1),
-        rb_am.effective_energy(space), rb_ph.effective_energy(space), rb_am.effective_energy(VV, AA), rb_ph.effective_energy(VV, AA)))
+    def twice(fn):
+        """call, overwrite the returned tensor in place (it is the caller's), call again with the same arguments"""
+        first = fn()
+        with torch.no_grad():
+            try:
+                first.mul_(0.0).add_(7.0)
+            except Exception:
+                ctx.count("returned_tensor_not_writable")
+        return fn()
+    ok, again = ctx.call("repeated evaluation", case, lambda: tuple(twice(f) for f in (
+        lambda: s.rho(space, space), lambda: s.rho(V, VP, expand=False), lambda: s.rho(space, expand=False), lambda: s.rho(space),
+        lambda: s.probability(space), lambda: s.normalization(space), lambda: s.pi(space, space),
+        lambda: rb_am.gamma(space, space, eta=+1), lambda: rb_ph.gamma(space, space, eta=-1),
+        lambda: rb_am.effective_energy(space), lambda: rb_ph.effective_energy(space),
+        lambda: rb_am.effective_energy(VV, AA), lambda: rb_ph.effective_energy(VV, AA))))
     if ok:
         same = (list(again[0].shape) == [2, N, N] and bool(np.all(np.abs(cnp(again[0]) - Rc) <= tolm))
                 and list(again[1].shape) == [2, N * N] and bool(np.all(np.abs(cnp(again[1]).reshape(N, N) - Rc) <= tolm))
@@ -317,7 +343,8 @@ def evaluate(ctx, s, am, ph, case, nontriv, desc, T=None, big=False):
                 and list(again[4].shape) == [N] and bool(np.allclose(again[4].numpy(), prob_n, rtol=1e-9, atol=0))
                 and math.isclose(float(again[5]), Zf, rel_tol=1e-9))
         ctx.require("a repeated call with the same arguments returns the same rho / probability / normalization", same, case,
-                    {"normalization": [float(again[5]), Zf], "probability": [again[4].numpy().tolist(), prob_n.tolist()]})
+                    {"between the two calls": "the caller overwrote the first result in place", "normalization": [float(again[5]), Zf],
+                     "probability": [again[4].numpy().tolist(), prob_n.tolist()]})
     ctx.traces += 1
     return res
 
@@ -503,11 +530,12 @@ WAYS = ["data_assign", "data_copy_", "load_state_dict", "vector_to_parameters"]
 PNAMES = ["weights_W", "weights_U", "visible_bias", "hidden_bias", "aux_bias"]
 NETS = ["rbm_am", "rbm_ph"]
 # torch-level writes of (a subset of) the parameters of a live network: the values the harness wrote ARE the current values
-TORCH_WAYS = ["init", "data_assign", "data_copy_", "load_state_dict", "vector_to_parameters", "no_grad_copy_", "rebind_parameter"]
+TORCH_WAYS = ["init", "data_assign", "data_copy_", "load_state_dict", "vector_to_parameters", "no_grad_copy_", "rebind_parameter",
+              "state_dict_alias_copy_"]
 # mutations the library offers or tolerates that go through library code / other objects; the current parameters are read
 # back from the public attributes of the object afterwards
 LIB_WAYS = ["constructed", "replace_network", "state_load_file", "state_load_buffer", "optimizer_step", "deepcopy_continue",
-            "reinitialize_parameters", "initialize_parameters", "fit"]
+            "autoload_continue", "reinitialize_parameters", "initialize_parameters", "fit", "dtype_roundtrip"]
 # (net, parameter) pairs a partial step may touch on its own; the phase net's auxiliary bias keeps its documented value 0
 SINGLES = [(n, k) for n in NETS for k in PNAMES if not (n == "rbm_ph" and k == "aux_bias")]
 BIASES = [(n, k) for (n, k) in SINGLES if k.endswith("bias")]
@@ -541,6 +569,10 @@ def write_some(rbm, named, way):
         with torch.no_grad():
             for k, t in named.items():
                 getattr(rbm, k).copy_(t)
+    elif way == "state_dict_alias_copy_":                 # the tensors in state_dict() share storage with the parameters
+        sd = rbm.state_dict()
+        for k, t in named.items():
+            sd[k].copy_(t)
     elif way == "rebind_parameter":                       # rbm.weights_U = nn.Parameter(...): a NEW Parameter object
         for k, t in named.items():
             setattr(rbm, k, nn.Parameter(t, requires_grad=False))
@@ -639,6 +671,17 @@ def apply_step(ctx, s, st, nv, nh, na):
         left, s = s, copy.deepcopy(s)
         for net in NETS:
             write_some(getattr(s, net), W[net], "data_copy_")
+    elif way == "autoload_continue":                      # the history goes on with DensityMatrix.autoload(file of a donor)
+        donor = copy.deepcopy(s)
+        for net in NETS:
+            write_some(getattr(donor, net), W[net], "data_assign")
+        path = os.path.join(ctx.scratch, "c02_auto_%d.pt" % ctx.evaluations)
+        donor.save(path)
+        left, s = s, DensityMatrix.autoload(path, gpu=False)
+        os.remove(path)
+    elif way == "dtype_roundtrip":                        # module.float().double(): every parameter rounded to single precision
+        for net in (opts.get("nets") or NETS):
+            getattr(s, net).float().double()
     elif way == "reinitialize_parameters":
         s.reinitialize_parameters()
     elif way == "initialize_parameters":                  # the networks' own public method, on one network or on both
@@ -775,7 +818,7 @@ def op_steps(ctx, nv, nh, na, op):
     hows = ["data_copy_", "no_grad_copy_", "data_assign", "rebind_parameter", "load_state_dict", "vector_to_parameters"]
     how = hows[int(ctx.rng.integers(0, len(hows)))]
     if op in WAYS or op in ("no_grad_copy_", "rebind_parameter", "replace_network", "state_load_file", "state_load_buffer",
-                            "deepcopy_continue"):
+                            "deepcopy_continue", "autoload_continue", "state_dict_alias_copy_"):
         return [full_step(ctx, nv, nh, na, op)]
     if op == "optimizer_step":
         return [full_step(ctx, nv, nh, na, op, regime="default", opts={"lr": float(ctx.rng.choice([0.1, 0.5, 1.0])),
@@ -786,6 +829,8 @@ def op_steps(ctx, nv, nh, na, op):
         nets = {"initialize_am": ["rbm_am"], "initialize_ph": ["rbm_ph"], "initialize_both": list(NETS)}[op]
         return [lib_step("initialize_parameters", nets=nets, zero_weights=bool(op == "initialize_both" and ctx.rng.random() < 0.3)),
                 partial_step(ctx, nv, nh, na, [t for t in BIASES if t[0] in nets], how)]
+    if op == "dtype_roundtrip":
+        return [lib_step(op, nets=[NETS[int(ctx.rng.integers(0, 2))]] if ctx.rng.random() < 0.5 else list(NETS))]
     if op == "fit":
         return [full_step(ctx, nv, nh, na, "data_copy_", regime="default"),
                 lib_step("fit", data_seed=int(ctx.rng.integers(0, 2 ** 31 - 1)), epochs=2, lr=0.05)]
@@ -801,7 +846,7 @@ def op_steps(ctx, nv, nh, na, op):
 
 NEW_OPS = ["reinitialize_parameters", "rebind_parameter", "replace_network", "initialize_am", "single_parameter", "state_load_file",
            "initialize_ph", "optimizer_step", "one_network", "no_grad_copy_", "deepcopy_continue", "initialize_both",
-           "state_load_buffer", "single_parameter", "fit"]
+           "state_load_buffer", "single_parameter", "fit", "autoload_continue", "state_dict_alias_copy_", "dtype_roundtrip"]
 ALL_OPS = WAYS + NEW_OPS
 
 
@@ -839,6 +884,9 @@ def fixed_histories(ctx):
         full_step(ctx, nv, nh, na, "deepcopy_continue", "default"),
         lib_step("fit", data_seed=int(ctx.rng.integers(0, 2 ** 31 - 1)), epochs=2, lr=0.05),
         full_step(ctx, nv, nh, na, "state_load_buffer", "default"),
+        full_step(ctx, nv, nh, na, "autoload_continue", "default"),
+        lib_step("dtype_roundtrip", nets=["rbm_am"]),
+        full_step(ctx, nv, nh, na, "state_dict_alias_copy_", "large_bias"),
         lib_step("initialize_parameters", nets=list(NETS), zero_weights=True),
         partial_step(ctx, nv, nh, na, SINGLES, "load_state_dict"),
         lib_step("reinitialize_parameters"),
@@ -847,7 +895,7 @@ def fixed_histories(ctx):
     # C: each parameter of each network changed ALONE between two evaluations, by rotating ways of writing it
     nv, nh, na = 2, 1, 2
     hows = ["data_copy_", "rebind_parameter", "data_assign", "no_grad_copy_", "load_state_dict", "vector_to_parameters",
-            "optimizer_step", "state_load_buffer", "replace_network"]
+            "optimizer_step", "state_load_buffer", "replace_network", "state_dict_alias_copy_"]
     r0 = int(ctx.rng.integers(0, len(hows)))
     run_history(ctx, nv, nh, na, [full_step(ctx, nv, nh, na, "init", "default")] +
                 [partial_step(ctx, nv, nh, na, [t], hows[(r0 + i) % len(hows)]) for i, t in enumerate(SINGLES)])
